@@ -122,6 +122,64 @@ def table_stream(ctx, count, maxlen):
             ctx.disagreement("table", s, "impl %s model %s" % (imp, r["ok"]["model"]))
 
 
+# ---------------------------------------------------------------- table, list mode
+def impl_ltable(ops):
+    from scinumtools import ParameterTable
+    t = ParameterTable(SETTINGS)
+    outs = []
+
+    def rec(v):
+        return [int(x) for x in v.data().values()]
+    for op in ops:
+        try:
+            if op[0] == "append":
+                t.append(op[1])
+                outs.append("unit")
+            elif op[0] == "del":
+                del t[op[1]]
+                outs.append("unit")
+            elif op[0] == "get":
+                outs.append({"val": rec(t[op[1]])})
+            elif op[0] == "len":
+                outs.append({"nat": len(t)})
+            elif op[0] == "items":
+                outs.append({"items": [[k, rec(v)] for k, v in t.items()]})
+        except Exception:
+            outs.append("err")
+    return outs
+
+
+def ltable_stream(ctx, count, maxlen):
+    seqs = [[["append", [1, 2]], ["append", [3, 4]], ["get", -1], ["del", 0], ["items"], ["del", 5], ["len"]]]
+    for _ in range(count):
+        s = []
+        for _ in range(ctx.rng.randint(1, maxlen)):
+            r = ctx.rng.random()
+            if r < 0.4:
+                s.append(["append", [ctx.rng.randint(-5, 5), ctx.rng.randint(0, 3)]])
+            elif r < 0.55:
+                s.append(["del", ctx.rng.randint(-6, 6)])
+            elif r < 0.8:
+                s.append(["get", ctx.rng.randint(-6, 6)])
+            elif r < 0.9:
+                s.append(["len"])
+            else:
+                s.append(["items"])
+        seqs.append(s)
+    res = ctx.driver.ask_many([{"p": "C20", "k": "ltable", "ops": s} for s in seqs])
+    for s, r in zip(seqs, res):
+        ctx.case(["ltable", s], any(o[0] == "del" for o in s), None)
+        ctx.count("ltable.ops", len(s))
+        imp = impl_ltable(s)
+        if "ok" not in r or imp != r["ok"]:
+            # the Lean list model *is* the specification of list mode
+            spec = r.get("ok")
+            idx = next((i for i, (a, b) in enumerate(zip(imp, spec or [])) if a != b), 0)
+            ctx.violation("ltable:%s" % s[idx][0],
+                          "ParameterTable (list mode) differs from a plain list at op %d %s" % (idx, s[idx]),
+                          {"stream": "ltable", "ops": s[:idx + 1], "impl": imp[:idx + 1], "spec": (spec or [])[:idx + 1]})
+
+
 # ---------------------------------------------------------------- row collector
 def gen_rc(rng, maxlen):
     ncols = rng.randint(1, 4)
@@ -276,6 +334,7 @@ def combo_stream(ctx, count):
 def correspond(ctx: Ctx):
     thorough = ctx.tier == "thorough"
     table_stream(ctx, 4000 if thorough else 600, 200 if thorough else 30)
+    ltable_stream(ctx, 2000 if thorough else 300, 60 if thorough else 20)
     rc_stream(ctx, 3000 if thorough else 500, 60 if thorough else 15)
     grid_stream(ctx, 120 if thorough else 40, 12 if thorough else 8)
     combo_stream(ctx, 2000 if thorough else 300)
